@@ -797,6 +797,13 @@ class Engine(object):
             return [Out(NEXT, st)]
         if isinstance(target, (ast.Tuple, ast.List)):
             n = len(target.elts)
+            if v[0] == 'phi' and len(v[1]) <= 4 and all(a[0] in ('tuple', 'list') and len(a[1]) == n and not any(x[0] == 'star' for x in a[1]) for a in v[1]):
+                # the collapsed outcomes of an event-free helper returning same-arity tuples: unpacking re-creates the case split
+                # (the components are correlated: json goes with 'w', dill with 'wb')
+                outs = []
+                for a in v[1]:
+                    outs.extend(self.assign(target, a, st.fork()))
+                return outs
             outs = [Out(NEXT, st)]
             for i, t in enumerate(target.elts):
                 if isinstance(t, ast.Starred):
